@@ -516,6 +516,13 @@ where
     pub fn verif_b(&self) -> &[T] {
         &self.b
     }
+    /// factors held by the QDLDL backend (None for other backends)
+    #[allow(clippy::type_complexity)]
+    pub fn verif_qdldl_factors(
+        &self,
+    ) -> Option<(Vec<usize>, Vec<usize>, Vec<T>, Vec<T>, Vec<usize>, Vec<i8>, usize, usize)> {
+        self.ldlsolver.verif_qdldl_factors()
+    }
     /// name of the backend that was selected
     pub fn verif_backend_name(&self) -> String {
         self.ldlsolver.linear_solver_info().name
